@@ -289,6 +289,9 @@ func init() {
 					out = append(out, cs("VH_C09_Cond", i, v))
 				}
 			}
+			for i := range auto.Stack {
+				out = append(out, cs("VH_C09_AsArgument", i, 0))
+			}
 			// pairs: every mutator followed by every mutator (thorough), a seeded sample (quick)
 			var muts []int
 			for i, n := range auto.Stack {
@@ -308,7 +311,7 @@ func init() {
 			return out
 		},
 		boundsText: map[string]string{
-			"quick":    "every exported method of Stack and Condition of the tree under test x argument variants (ints/bools all values, strings 4, any: 12 catalogue values, variadics 0..2) on a read-only receiver with nested content (Stack/alias, Condition holding a Stack, text, int), all other option bits symbolic, closures installed / not, mutex on / off; a seeded 1/23 sample of ordered mutator pairs",
+			"quick":    "every exported method of Stack and Condition of the tree under test x argument variants (ints/bools all values, strings 4, any: 12 catalogue values, variadics 0..2) on a read-only receiver with nested content (Stack/alias, Condition holding a Stack, text, int), all other option bits symbolic, closures installed / not, mutex on / off; the read-only Stack (native / alias / pointer forms) handed as argument to every method of another Stack; a seeded 1/23 sample of ordered mutator pairs",
 			"thorough": "as quick with capacity variants and all ordered pairs of declared mutators",
 		},
 		outside: "receivers with other content shapes; sequences longer than two calls",
@@ -406,10 +409,10 @@ func init() {
 			return out
 		},
 		boundsText: map[string]string{
-			"quick":    "43 trees (3 hand-picked + 40 drawn from VERIF_SEED) of depth<=3, width<=3 with text leaves, nil slots, Conditions with text or Stack expressions, nested Stacks and aliases; every path length 0..depth+2 with every index an unconstrained 64-bit variable; negative/forward index bits of every node symbolic",
+			"quick":    "43 trees (3 hand-picked + 40 drawn from VERIF_SEED) of depth<=3, width<=3 with text leaves, nil slots, Conditions (native, alias, pointer to alias) with text or Stack / Stack-alias expressions, nested Stacks and Stack aliases; every path length 0..depth+2 with every index an unconstrained 64-bit variable; negative/forward index bits of every node symbolic",
 			"thorough": "403 trees, same generator",
 		},
-		outside: "trees outside the sampled set / deeper or wider than the bound; Condition aliases (C12)",
+		outside: "trees outside the sampled set / deeper or wider than the bound",
 		assumptions: []string{"tree shapes are enumerated (concrete); the solver covers all index values and index-option bits for each shape"},
 	})
 
@@ -567,7 +570,7 @@ func init() {
 			var out []symx.CaseSpec
 			// one case per leaf type as sole content, all mutations
 			for t := 0; t < 12; t++ {
-				for mut := 0; mut <= 5; mut++ {
+				for mut := 0; mut <= 7; mut++ {
 					out = append(out, cs("VH_C05", 1, 4, mut, 0, 1, t, 1))
 				}
 				for mut := 0; mut <= 3; mut++ {
@@ -576,6 +579,13 @@ func init() {
 					}
 				}
 			}
+			for t := 16; t <= 18; t++ { // leaf types 12..14: spare-capacity slices, interface-field struct
+				for mut := 0; mut <= 7; mut++ {
+					out = append(out, cs("VH_C05", 1, 4, mut, 0, 0, t, 1))
+				}
+			}
+			// spare-capacity slices of different length against each other
+			out = append(out, cs("VH_C05_SliceLen"))
 			n := q(tier, 60, 600)
 			r := uint64(seed)*2654435761 + 5
 			for i := 0; i < n; i++ {
@@ -584,12 +594,12 @@ func init() {
 					r = r*6364136223846793005 + 1442695040888963407
 					digits = append(digits, int((r>>33)%1680))
 				}
-				out = append(out, cs("VH_C05", append([]int{1 + i%2, 3 + i%3, i % 6}, digits...)...))
+				out = append(out, cs("VH_C05", append([]int{1 + i%2, 3 + i%3, i % 8}, digits...)...))
 			}
 			return out
 		},
 		boundsText: map[string]string{
-			"quick":    "every leaf type (int, string, bool, *int, **int, []int, [3]int, map[string]int, struct, struct with unexported field, nil) as content with every mutation {none, swap siblings, one more, one fewer, other kind, other capacity}; Conditions over every leaf type x {keyword, operator, expression-type} mutations with operator codes symbolic; 60 seeded trees (depth<=2, width<=3, <=5 scalar variables per side); every scalar leaf value is a pair of unconstrained 64-bit variables",
+			"quick":    "every leaf type (int, string, bool, *int, **int, []int, [3]int, map[string]int, struct, struct with unexported field, nil) as content with every mutation {none, swap siblings, one more, one fewer, other kind, other capacity, same capacity + one fewer, same capacity + equal}; slices with spare capacity and a struct whose interface field holds a slice; Conditions over every leaf type x {keyword, operator, expression-type} mutations with operator codes symbolic; 60 seeded trees (depth<=2, width<=3, <=5 scalar variables per side); every scalar leaf value is a pair of unconstrained 64-bit variables",
 			"thorough": "as quick with 600 seeded trees",
 		},
 		outside: "floats/NaN, funcs, chans, typed-nil pointers as compared leaves; custom equality policies (C14); case-folded kinds",
@@ -651,10 +661,10 @@ func init() {
 			return out
 		},
 		boundsText: map[string]string{
-			"quick":    "11 hand-built trees for the cases the statement names + 150 seeded trees of depth<=3, width<=3 over AND/OR/NOT/LIST/BASIC with text/int/bool leaves, Conditions (padding, paren, encap variants) and nested stacks; the option bits (paren, fold, no-padding, lead-once) of the first 1-2 nodes are solver variables, the others drawn with the shape; symbol none/1/2 bytes, delimiter none/1/2 bytes, encapsulation none/single/pair/single+pair; one text leaf of 0..2 unconstrained ASCII bytes (blank, tab, NUL included), the other leaves from a fixed list incl. multi-byte UTF-8, embedded blanks/tabs and the empty string",
+			"quick":    "11 hand-built trees for the cases the statement names + 150 seeded trees of depth<=3, width<=3 over AND/OR/NOT/LIST/BASIC with text/int/bool leaves, Conditions (padding, paren, encap variants) and nested stacks; the option bits (paren, fold, no-padding, lead-once) of the first 1-2 nodes are solver variables, the others drawn with the shape; symbol none/1/2 bytes, delimiter none/1/2 bytes, encapsulation none/single/pair/single+pair; one text leaf of 0..2 unconstrained bytes (all 256 values: blank, tab, NUL, UTF-8 lead and continuation bytes), the other leaves from a fixed list incl. multi-byte UTF-8, embedded blanks/tabs and the empty string",
 			"thorough": "1500 trees, two symbolic text leaves",
 		},
-		outside: "symbolic bytes >= 0x80 (non-ASCII text is covered by concrete leaves only); leaves longer than 2 symbolic bytes; lead-once on LIST stacks (statement silent); nil / unknown-typed elements (render as UNKNOWN, outside the statement's domain); presentation policies (C14); aliases (C12)",
+		outside: "leaves longer than 2 symbolic bytes; lead-once on LIST stacks (statement silent); nil / unknown-typed elements (render as UNKNOWN, outside the statement's domain); presentation policies (C14); aliases (C12)",
 		assumptions: []string{"where the statement does not say where blanks go, the reference grammar is the one pinned by the repository's tests (leaves padded unless no-padding; nested renderings inserted as they are; word operators always blank-separated; symbols/delimiters blank-separated only under padding; LIST without delimiter: one blank under padding, nothing under no-padding)"},
 	})
 }
